@@ -63,6 +63,7 @@ Q_M7 = rq(method="POST", ftype="multipart", form=(("a", "1"), ("n", "7")))
 Q_M8 = rq(method="POST", ftype="multipart", form=(("a", "1"), ("n", "8")))
 Q_X2 = rq(query=(("x", "2"), ("t", "5")))
 Q_PUT = rq(method="PUT")
+Q_FA2 = rq(method="POST", ftype="urlencoded", form=(("a", "2"), ("n", "7")))
 TCP = rec(Q_BASE, hasresp=False, http=False)
 
 BATCH_QUICK = [
@@ -74,7 +75,7 @@ BATCH_QUICK = [
 REQ_QUICK = [Q_BASE, Q_HOST, Q_T6, Q_PAR2, Q_F8, Q_H2, Q_OTHER]
 OPT_QUICK = [("ih", True), ("iparams", ("t",)), ("ipay", ("n",)), ("uh", ("x-a",)), ("reuse", True), ("extra", "kill"),
              ("extra", "404")]
-INIT_QUICK = [opts(), opts(reuse=True, ip=True), opts(extra="kill", ih=True)]
+INIT_QUICK = [opts(), opts(reuse=True, ip=True), opts(killx=True, ih=True)]
 
 BATCH_FULL = BATCH_QUICK + [
     [rec(Q_RAW1), rec(Q_RAW2), rec(Q_RAW1, hasresp=False), rec(Q_RAW1)],
@@ -82,7 +83,7 @@ BATCH_FULL = BATCH_QUICK + [
     [rec(Q_HTTPS), rec(Q_X2), rec(Q_PUT), rec(Q_BASE)],
     [rec(Q_HOST), rec(Q_PORT), rec(Q_BASE), rec(Q_HOST), rec(Q_PORT)],
 ]
-REQ_FULL = REQ_QUICK + [Q_PORT, Q_F7, Q_H1, Q_PAR1, Q_HTTPS, Q_RAW1, Q_RAW2, Q_M8, Q_X2, Q_PUT]
+REQ_FULL = REQ_QUICK + [Q_PORT, Q_F7, Q_H1, Q_PAR1, Q_HTTPS, Q_RAW1, Q_RAW2, Q_M8, Q_X2, Q_PUT, Q_FA2]
 OPT_FULL = OPT_QUICK + [("ih", False), ("ip", True), ("ic", True), ("ic", False), ("iparams", ("t", "x")), ("iparams", ()),
                         ("ipay", ()), ("uh", ()), ("reuse", False), ("extra", "forward"), ("extra", "500"), ("killx", True)]
 INIT_FULL = INIT_QUICK + [opts(ic=True), opts(iparams=("t",), ipay=("n",), uh=("x-a",), extra="204")]
@@ -152,6 +153,19 @@ def _jopts(o):
 _RESP = re.compile(rb"^resp-(\d+)$")
 
 
+def _edge_cover_sample(g, rng, max_len, tail, limit):
+    """Edge cover of the dumped graph; quick tier: a seeded sample of it (states are parsed only for the sample)."""
+    mk = g._mk
+    g._mk = lambda path: path
+    try:
+        raw = g.edge_cover(rng, max_len=max_len, tail=tail)
+    finally:
+        del g._mk
+    if limit is not None and len(raw) > limit:
+        raw = rng.sample(raw, limit)
+    return [mk(p) for p in raw]
+
+
 class Check(core.PropertyCheck):
     ID = "C52"
     SPEC_DIR = "ServerReplay"
@@ -193,9 +207,10 @@ class Check(core.PropertyCheck):
         return self._consts("small")
 
     def model_runs(self, ctx):
-        runs = [ctx.model_check(self.MODEL, self._consts("small"), dump=True)]
+        # generous timeouts: the sandbox is shared, TLC slows down by an order of magnitude under load
+        runs = [ctx.model_check(self.MODEL, self._consts("small"), dump=True, timeout=1200)]
         if not ctx.quick:
-            runs.append(ctx.model_check(self.MODEL, self._consts("medium"), dump=False, tag="_medium"))
+            runs.append(ctx.model_check(self.MODEL, self._consts("medium"), dump=False, tag="_medium", timeout=3000, workers=4))
         return runs
 
     # ------------------------------------------------------------------------------------------------
@@ -221,13 +236,11 @@ class Check(core.PropertyCheck):
     def scenarios(self, ctx, models):
         rng = random.Random(ctx.seed + 52)
         g = models[0].graph
-        behs = g.edge_cover(rng, max_len=8, tail=3)
-        if ctx.quick and len(behs) > 2200:  # quick: a seeded sample of the edge cover (thorough replays all of it)
-            behs = rng.sample(behs, 2200)
+        behs = _edge_cover_sample(g, rng, 8, 3, 2200 if ctx.quick else None)
         ctx.notes["edge_cover_paths_replayed"] = len(behs)
         for b in behs:
             yield core.Scenario(self._from_behaviour(b, "small", rng), predicted=core.predicted_events(b), source="model")
-        sims, _ = ctx.simulate(self.MODEL, self._consts("full"), num=500 if ctx.quick else 12000, depth=8)
+        sims, _ = ctx.simulate(self.MODEL, self._consts("full"), num=500 if ctx.quick else 12000, depth=8, timeout=1500)
         for b in sims:
             yield core.Scenario(self._from_behaviour(b, "full", rng), predicted=core.predicted_events(b), source="simulate")
         for i in range(300 if ctx.quick else 5000):
@@ -242,7 +255,7 @@ class Check(core.PropertyCheck):
                 kw["host"] = rng.choice(["h2", "h1.example", "H1"])
             if rng.random() < 0.25:
                 kw["port"] = rng.choice([8080, 81])
-            if rng.random() < 0.2:
+            if rng.random() < 0.04:  # rare: the known ;parameters finding would otherwise cut most histories short
                 kw["params"] = rng.choice(["v=1", "v=2", "s"])
             if rng.random() < 0.5:
                 kw["query"] = rng.choice([(), (("x", "1"),), (("x", "1"), ("t", "6")), (("t", "5"), ("x", "1")), (("x", "2"), ("t", "5")),
@@ -282,7 +295,7 @@ class Check(core.PropertyCheck):
             if rng.random() < 0.5:
                 return r
             r = dict(r)
-            which = rng.choice(["host", "port", "t", "params", "form", "hdr", "path"])
+            which = rng.choice(["host", "port", "t", "form", "hdr", "path"] * 5 + ["params"])
             if which == "host":
                 r["host"] = "h9"
             elif which == "port":
